@@ -133,8 +133,11 @@ def _wrapper(m):
             key = bytes(range(klen))
             for n in list(range(0, 40)) + [63, 64, 65]:
                 for d in ((bytes(range(7, 250)) * 2)[:n], bytes([16 - (n % 16) or 16]) * n):
-                    c = fb.CryptAES(key)
-                    enc = c.encrypt(d)
+                    try:
+                        c = fb.CryptAES(key)
+                        enc = c.encrypt(d)
+                    except Exception as e:  # noqa
+                        return ("CryptAES.encrypt", {"key": key.hex(), "data": d.hex()}, "iv + padded ciphertext", f"raised {type(e).__name__}: {e}")
                     if len(enc) != 16 + len(d) + (16 - len(d) % 16):
                         return ("CryptAES.encrypt", {"key": key.hex(), "data": d.hex()}, "iv + padded ciphertext", f"{len(enc)} bytes")
                     iv, body = enc[:16], enc[16:]
@@ -273,6 +276,53 @@ def fresh_iv(m):
     return None
 
 
+def installed(m):
+    """what pypdf calls after patch_pypdf_fallback_aes(): the bindings in the fallback provider module, in the provider
+    package and in pypdf._encryption (which imported the names earlier) against the reference"""
+    fb = _provider()
+    if fb is None or not m.patch_pypdf_fallback_aes():
+        return None
+    import pypdf._crypt_providers as providers
+    import pypdf._encryption as enc
+    key, iv = bytes(range(3, 19)), bytes(range(100, 116))
+    data = bytes(range(7, 55))
+    want = {"aes_ecb_encrypt": ((key, data), ecb(key, data)), "aes_ecb_decrypt": ((key, data), ecb(key, data, False)),
+            "aes_cbc_encrypt": ((key, iv, data), cbc_enc(key, iv, data)), "aes_cbc_decrypt": ((key, iv, data), cbc_dec(key, iv, data))}
+    for mod in (fb, providers, enc):
+        for name, (args, ref) in want.items():
+            try:
+                got = bytes(getattr(mod, name)(*args))
+            except Exception as e:  # noqa
+                got = f"{type(e).__name__}: {e}".encode()
+            if got != ref:
+                return (f"{mod.__name__}.{name} (after patch_pypdf_fallback_aes)", {"args": [a.hex() for a in args]}, ref.hex(), got.hex() if len(got) == len(ref) else repr(got))
+        for k in (bytes(range(16)), bytes(range(32))):
+            for d in (b"", b"0123456789abcdef", bytes(range(40))):
+                try:
+                    c = mod.CryptAES(k)
+                    out = bytes(c.encrypt(d))
+                    pad = 16 - len(d) % 16
+                    ok = out[16:] == cbc_enc(k, out[:16], d + bytes([pad]) * pad) and bytes(mod.CryptAES(k).decrypt(out)) == d
+                    obs = out.hex()
+                except Exception as e:  # noqa
+                    ok, obs = False, f"{type(e).__name__}: {e}"
+                if not ok:
+                    return (f"{mod.__name__}.CryptAES (after patch_pypdf_fallback_aes)", {"key": k.hex(), "data": d.hex()},
+                            "encrypt = IV || CBC_key(pad(data)); a new CryptAES(key).decrypt inverts it", obs)
+    return None
+
+
+def chunks_ok(m):
+    """the assumed contract of _chunks: block j of a block-aligned buffer is bytes 16j..16j+15 (bytes and memoryview input)"""
+    for n in list(range(0, 81, 16)) + [4096, 4112]:
+        d = bytes((7 * i + 3) % 256 for i in range(n))
+        for buf in (d, memoryview(d), bytearray(d)):
+            got = [bytes(x) for x in m._chunks(buf, 16)]
+            if got != [d[i:i + 16] for i in range(0, n, 16)]:
+                return ("_chunks", {"data": d.hex(), "size": 16, "type": type(buf).__name__}, f"{n // 16} consecutive 16-byte blocks", f"{len(got)} chunks")
+    return None
+
+
 def wrapper_long(m, cbc_enc, seed=0):
     """CryptAES round trip / CBC equation on streams around the long-message boundaries"""
     fb = _provider()
@@ -340,39 +390,54 @@ def find(req):
         for b in (0, 1, 2, 3, 9, 11, 13, 14, 0x80, 0xFF, a):
             if m._gf_mul(a, b) != _pmul(a, b):
                 return bad("_gf_mul", {"a": a, "b": b}, _pmul(a, b), m._gf_mul(a, b))
+    def run(fn, *args):
+        """value of a call on VALID inputs; an escaping exception is an observation like any other"""
+        try:
+            r = fn(*args)
+            return [bytes(x) for x in r] if isinstance(r, list) else bytes(r)
+        except Exception as e:  # noqa
+            return f"raised {type(e).__name__}: {e}"
+
+    def hx(v):
+        return v.hex() if isinstance(v, (bytes, bytearray)) else ([x.hex() for x in v][-1] if isinstance(v, list) and v else str(v))
+
+    r = chunks_ok(m)
+    if r is not None:
+        return bad(*r)
     for key, iv, data in cases(int(os.environ.get("VERIF_SEED", "0") or 0)):
         tried += 1
         m._ROUND_KEY_CACHE.clear()
         rks = key_expansion(key)
-        got = [bytes(x) for x in m._expand_key(key)]
+        got = run(m._expand_key, key)
         if got != rks:
-            return bad("_expand_key", {"key": key.hex()}, [x.hex() for x in rks][-1], [x.hex() for x in got][-1])
+            return bad("_expand_key", {"key": key.hex()}, hx(rks), hx(got))
         blk = (data + bytes(16))[:16]
         for fn, ref in ((m._aes_encrypt_block, enc_block), (m._aes_decrypt_block, dec_block)):
-            if bytes(fn(blk, rks)) != ref(blk, rks):
-                return bad(fn.__name__, {"block": blk.hex(), "key": key.hex()}, ref(blk, rks).hex(), bytes(fn(blk, rks)).hex())
-        for name, got, want in (("aes_ecb_encrypt", m.aes_ecb_encrypt(key, data), ecb(key, data)),
-                                ("aes_ecb_decrypt", m.aes_ecb_decrypt(key, data), ecb(key, data, False)),
-                                ("aes_cbc_encrypt", m.aes_cbc_encrypt(key, iv, data), cbc_enc(key, iv, data)),
-                                ("aes_cbc_decrypt", m.aes_cbc_decrypt(key, iv, data), cbc_dec(key, iv, data))):
-            if bytes(got) != want:
-                return bad(name, {"key": key.hex(), "iv": iv.hex(), "data": data.hex()}, want.hex(), bytes(got).hex())
+            got = run(fn, blk, rks)
+            if got != ref(blk, rks):
+                return bad(fn.__name__, {"block": blk.hex(), "key": key.hex()}, ref(blk, rks).hex(), hx(got))
+        for name, got, want in (("aes_ecb_encrypt", run(m.aes_ecb_encrypt, key, data), ecb(key, data)),
+                                ("aes_ecb_decrypt", run(m.aes_ecb_decrypt, key, data), ecb(key, data, False)),
+                                ("aes_cbc_encrypt", run(m.aes_cbc_encrypt, key, iv, data), cbc_enc(key, iv, data)),
+                                ("aes_cbc_decrypt", run(m.aes_cbc_decrypt, key, iv, data), cbc_dec(key, iv, data))):
+            if got != want:
+                return bad(name, {"key": key.hex(), "iv": iv.hex(), "data": data.hex()}, want.hex(), hx(got))
         for n in range(0, 40, 7):
             d = data[:n] if len(data) >= n else bytes(n)
-            p = m._pkcs7_pad(d, 16)
-            if len(p) % 16 or p[:len(d)] != d or m._pkcs7_unpad(p, 16) != d:
-                return bad("_pkcs7_pad/_pkcs7_unpad", {"data": d.hex()}, "unpad(pad(d)) == d", p.hex())
+            p = run(m._pkcs7_pad, d, 16)
+            if isinstance(p, str) or len(p) % 16 or p[:len(d)] != d or run(m._pkcs7_unpad, p, 16) != d:
+                return bad("_pkcs7_pad/_pkcs7_unpad", {"data": d.hex()}, "unpad(pad(d)) == d", hx(p))
     # PKCS#7: plaintexts ending in their own pad byte value, all pad lengths
     for n in range(0, 50):
         for tail in (b"", b"\x01", b"\x02\x02", b"\x10" * 3, bytes([16 - (n % 16)]) * 2):
             d = (bytes(range(1, 200)) * 2)[:n] + tail
-            p = m._pkcs7_pad(d, 16)
+            p = run(m._pkcs7_pad, d, 16)
             want_p = 16 - len(d) % 16
-            if len(p) != len(d) + want_p or p[:len(d)] != d or p[len(d):] != bytes([want_p]) * want_p:
-                return bad("_pkcs7_pad", {"data": d.hex()}, (d + bytes([want_p]) * want_p).hex(), p.hex())
-            u = m._pkcs7_unpad(p, 16)
+            if isinstance(p, str) or len(p) != len(d) + want_p or p[:len(d)] != d or p[len(d):] != bytes([want_p]) * want_p:
+                return bad("_pkcs7_pad", {"data": d.hex()}, (d + bytes([want_p]) * want_p).hex(), hx(p))
+            u = run(m._pkcs7_unpad, p, 16)
             if u != d:
-                return bad("_pkcs7_unpad", {"data": p.hex()}, d.hex(), bytes(u).hex())
+                return bad("_pkcs7_unpad", {"data": p.hex()}, d.hex(), hx(u))
     for badpad in (b"abc\x00", b"abc\x11", b"ab\x02\x03", bytes(15) + b"\x05"):
         try:
             r = m._pkcs7_unpad(badpad, 16)
@@ -384,10 +449,10 @@ def find(req):
     hist = [bytes(15) + b"\x07", bytes(23) + b"\x07", bytes(31) + b"\x07", b"\x07" + bytes(15), bytes(16), bytes(24), bytes(32), bytes(15) + b"\x07"]
     for key in hist + hist[::-1]:
         tried += 1
-        got = [bytes(x) for x in m._get_round_keys(key)]
+        got = run(m._get_round_keys, key)
         if got != key_expansion(key):
             return bad("_get_round_keys", {"key": key.hex(), "history": "keys differing by leading zeros / length, cache not cleared"},
-                       key_expansion(key)[-1].hex(), got[-1].hex())
+                       key_expansion(key)[-1].hex(), hx(got))
     for badkey in (bytes(15), bytes(17), b"", b"\x07"):
         try:
             m._get_round_keys(badkey)
@@ -399,7 +464,7 @@ def find(req):
         r = wrapper(m, cbc_enc, cbc_dec)
         if r is not None:
             return bad(*r)
-    r = fresh_iv(m)
+    r = installed(m) or fresh_iv(m)
     if r is not None:
         return bad(*r)
     r = long_messages(m, int(os.environ.get("VERIF_SEED", "0") or 0)) or wrapper_long(m, cbc_enc)
